@@ -745,8 +745,8 @@ T = {
  "C07-8": dict(
     change="x/stablestake/keeper/interest_rate.go InterestRateComputation: the floor of the rate applies only while the vault's loan figure is positive",
     needs="coins sent straight to the vault's account in excess of the outstanding loans, a live debt, a dozen epochs and a debt refresh: the rate goes below zero and the redemption rate falls",
-    caught_by="C07Src.interest_rate_in_band (the regenerated definition no longer stays in the band) - reported with no-failing-input-found",
-    history="caught at first run as a broken proof obligation; mode c07 did not reach a failing redemption (no direct inflow to the vault's account in its op sequences)"),
+    caught_by="C07.others_unharmed (driver C07H) in scenario c07-inflow-exceeding-loans; C07Src.interest_rate_in_band (the regenerated definition no longer stays in the band) at first contact",
+    history="caught at first run only as a broken proof obligation without a failing input (nothing in the op sequences of mode c07 or in the histories sent coins straight to the vault's account); a directed scenario added (a leveraged position, a swap whose recipient is the vault's address, 24 epochs, a refresh of the debt): the vault's stated value falls in a block without a redemption; caught with a failing input since"),
  "C08-8": dict(
     change="x/leveragelp/keeper/msg_server_update_params.go UpdateParams: pools whose own cap exceeds a lowered module-wide LeverageMax are re-created with NewPool (their leveraged total is reset to zero)",
     needs="governance lowering leveragelp's LeverageMax below a pool's cap while the pool has open positions",
